@@ -1,0 +1,43 @@
+//go:build verif
+
+package flow
+
+// VerifRuleCtrl describes one traffic shaping controller in force: a copy of its bound rule, the
+// controller object itself and, if the controller owns a statistic structure (not the resource
+// node's shared one, not the nop statistic), that structure. Verification builds only.
+type VerifRuleCtrl struct {
+	Rule Rule
+	Ctrl interface{}
+	Stat interface{}
+}
+
+// VerifRuleControllers returns the controllers of res in checking order.
+func VerifRuleControllers(res string) []VerifRuleCtrl {
+	tcMux.RLock()
+	defer tcMux.RUnlock()
+	tcs, ok := tcMap[res]
+	if !ok {
+		return nil
+	}
+	ret := make([]VerifRuleCtrl, 0, len(tcs))
+	for _, tc := range tcs {
+		c := VerifRuleCtrl{Rule: *tc.rule, Ctrl: tc}
+		if !tc.boundStat.reuseResourceStat && tc.boundStat.writeOnlyMetric != nil &&
+			tc.boundStat.writeOnlyMetric != nopStat.writeOnlyMetric {
+			c.Stat = tc.boundStat.writeOnlyMetric
+		}
+		ret = append(ret, c)
+	}
+	return ret
+}
+
+// VerifRuleResources returns the resources that have an entry in the controller map.
+func VerifRuleResources() []string {
+	tcMux.RLock()
+	defer tcMux.RUnlock()
+	ret := make([]string, 0, len(tcMap))
+	for k := range tcMap {
+		ret = append(ret, k)
+	}
+	return ret
+}
